@@ -52,6 +52,9 @@ type c10host struct {
 	realm     string // token realm host
 	creds     c10creds
 	basicOnly bool // challenges with Basic instead of Bearer
+	// noUsableChallenge: the registry answers 401 without a challenge the transport can
+	// use: 1 = no Www-Authenticate header at all, 2 = an unknown scheme only
+	noUsableChallenge int
 	// the scope a request must carry on this host (fixed per run)
 	need      Scope
 	chalText  string // scope text put in Bearer challenges
@@ -169,6 +172,17 @@ func (n *c10net) RoundTrip(req *http.Request) (*http.Response, error) {
 	n.checkConfinement(req, host, nil, h)
 	auth := req.Header.Get("Authorization")
 	now := verifNow()
+	if _, _, isBasic := req.BasicAuth(); isBasic {
+		verifAssert(h.basicChallenged, "no-basic-auth-before-a-basic-challenge")
+	}
+	if h.noUsableChallenge != 0 {
+		// always unauthorized, and never says how to authenticate
+		hdr := http.Header{}
+		if h.noUsableChallenge == 2 {
+			hdr.Set("Www-Authenticate", `Negotiate`)
+		}
+		return c10resp(req, 401, hdr, ""), nil
+	}
 	if h.basicOnly {
 		u, p, ok := req.BasicAuth()
 		if ok && u == h.creds.user && p == h.creds.pass && u != "" {
@@ -305,7 +319,14 @@ func c10newNet() *c10net {
 		// challenge names exactly that scope; only its credentials stay symbolic
 		plain := verifParam("plainA", 0) == 1
 		if symbolic && !plain {
-			h.basicOnly = h.creds.user != "" && verifBool(name+".basicOnly")
+			switch verifChoose(name+".challengeKind", 4) {
+			case 1:
+				h.basicOnly = h.creds.user != ""
+			case 2:
+				h.noUsableChallenge = 1
+			case 3:
+				h.noUsableChallenge = 2
+			}
 			needIdx = 1 + verifChoose(name+".need", 2)
 		}
 		h.need = ParseScope(c10scopes[needIdx])
